@@ -437,6 +437,13 @@ M("r4e-core-symb-table-one-row", ["C14", "C12"], "break",
   "core_symb_vect_addr_get/grow-core_symb_table_vlo")
 M("r4e-sit-table-more-rows-benign", ["C14", "C12"], "benign",
   [("yaep.c", "      diff += sizeof (struct sit **);\n      if (grammar->lookahead_level > 1 && diff == sizeof (struct sit **))\n	diff *= 10;", "      diff += 4 * sizeof (struct sit **);")])
+M("r1c-caller-anode-reset-at-the-end", ["C14", "C17", "C13"], "break",
+  [("yaep.c", "  for (rule = rules_ptr->first_rule; rule != NULL; rule = rule->next)\n    rule->caller_anode = NULL;\n}", "}"),
+   ("yaep.c", "  parse_state_fin ();\n  grammar->one_parse_p = saved_one_parse_p;", "  parse_state_fin ();\n  grammar->one_parse_p = saved_one_parse_p;\n  for (rule = rules_ptr->first_rule; rule != NULL; rule = rule->next)\n    rule->caller_anode = NULL;")],
+  "yaep_parse/writes/rule.caller_anode")
+M("r23-hash-size-before-alloc", ["C17", "C19", "C16"], "break",
+  [("hashtab.c", "  new_htab =\n    create_hash_table (htab->alloc, htab->number_of_elements * 2,", "  htab->searches++;\n  new_htab =\n    create_hash_table (htab->alloc, htab->number_of_elements * 2,")],
+  "expand_hash_table/searches")
 
 # ---- R8 / R2f (C16, C19) ----------------------------------------------------------------------------
 M("r8-revert-F14", ["C19", "C16"], "break", [("hashtab.cpp", "		  entry_ptr = first_deleted_entry_ptr;\n		  *entry_ptr = EMPTY_ENTRY;", "		  entry_ptr = first_deleted_entry_ptr;\n		  *entry_ptr = DELETED_ENTRY;")], "find_hash_table_entry~")
